@@ -602,7 +602,35 @@ class Interp:
         elif hasattr(v, 'havoc'):
             v.havoc(self)
 
+    def dictlike(self, cls, _d=0):
+        """repo classes that merely subclass (Ordered)dict without their own constructor are modelled as plain dicts"""
+        if '__init__' in cls.members() or '__missing__' in cls.members():
+            return False
+        for b in cls.node.bases:
+            try:
+                fr = Frame(FuncRef(cls.module, ast.FunctionDef(name='<class>', body=[], args=None)), {})
+                v = self.eval(b, fr)
+            except (PyExc, Unsupported):
+                continue
+            if isinstance(v, Builtin) and v.name in ('collections.OrderedDict', 'builtins.dict'):
+                return True
+            if isinstance(v, ClassRef) and _d < 4 and self.dictlike(v, _d + 1):
+                return True
+        return False
+
     def instantiate(self, cls, args, kwargs):
+        if self.dictlike(cls) and not args and not kwargs:
+            self.ctx.trust('dict subclass %s modelled as a plain dict (its __repr__ only)' % cls.name)
+            return {}
+        new = self.class_getattr(cls, '__new__')
+        if isinstance(new, FuncRef):
+            obj = self.call_function(new, [cls] + list(args), dict(kwargs))
+            if not isinstance(obj, Obj):
+                return obj
+            init = self.class_getattr(cls, '__init__')
+            if init is not None:
+                self.call(init.bind(obj) if isinstance(init, FuncRef) else init, args, kwargs)
+            return obj
         obj = Obj(cls)
         init = self.class_getattr(cls, '__init__')
         if init is not None:
@@ -1454,6 +1482,10 @@ class Interp:
             a = fr.func.node.args
             first = (a.posonlyargs + a.args)[0].arg
             return SuperProxy(fr.func.owner, fr.locals[first])
+        if isinstance(e.func, ast.Name) and e.func.id == 'super' and len(e.args) == 2 and 'super' not in frame.locals:
+            c, inst = self.eval(e.args[0], frame), self.eval(e.args[1], frame)
+            if isinstance(c, ClassRef):
+                return SuperProxy(c, inst)
         f = self.eval(e.func, frame)
         args = []
         for a in e.args:
